@@ -303,6 +303,93 @@ pub fn based_ctx_strategy() -> impl Strategy<Value = BasedCtx> {
     (crate::c13::src_strategy(false).prop_filter("based", |s| s.base != 10), 0u8..8, 0u8..22, 0u8..6).prop_map(|(lit, before, after, gap)| BasedCtx { lit: crate::c13::Src { pad: lit.pad % 9, ..lit }, before, after, gap })
 }
 
+// ---- an operator character inside the pattern of a registered rule ----------------------------------------
+
+/// A custom rule may use an operator character as a literal part of its pattern (`{NUMBER:n} @ {NUMBER:k}`). On a line the
+/// rule matches, the character is still an operator of the line: reported as an Operator token of length 1, and the
+/// number literals around it as Number tokens covering exactly their characters.
+#[derive(Clone, Debug, Serialize, Deserialize)]
+pub struct RuleOp {
+    pub op: u8,
+    /// 0 `{n} op {k}`, 1 `kw {n} op {k}`, 2 `{n} op {k} kw`
+    pub layout: u8,
+    pub n: u32,
+    pub k: u32,
+    /// a word before the matched part (index into WORDS, or none)
+    pub lead: Option<u8>,
+    pub lang: u8,
+}
+
+pub const RULE_OPS: [char; 9] = ['@', '&', '!', '~', '^', '|', '<', '>', '?'];
+
+pub struct OperatorInRule;
+
+impl Prop for OperatorInRule {
+    type Case = RuleOp;
+    fn shrink_iters(&self) -> u32 {
+        200
+    }
+    fn name(&self) -> &'static str {
+        "operator-in-a-rule-pattern"
+    }
+    fn check(&self, w: &mut Worker, c: &RuleOp) -> Verdict {
+        use crate::c18::{Behaviour, GenRule, RuleSpec};
+        let op = RULE_OPS[c.op as usize % RULE_OPS.len()];
+        let lang = if c.lang % 4 == 3 { "tr" } else { "en" };
+        let (pattern, body) = match c.layout % 3 {
+            0 => (format!("{{NUMBER:n}} {} {{NUMBER:k}}", op), format!("{} {} {}", c.n, op, c.k)),
+            1 => (format!("frob {{NUMBER:n}} {} {{NUMBER:k}}", op), format!("frob {} {} {}", c.n, op, c.k)),
+            _ => (format!("{{NUMBER:n}} {} {{NUMBER:k}} zork", op), format!("{} {} {} zork", c.n, op, c.k)),
+        };
+        let line = match c.lead {
+            Some(i) => format!("{} {}", WORDS[i as usize % WORDS.len()], body),
+            None => body,
+        };
+        let rendered = format!("[{}] add_rule({:?}); {:?}", lang, pattern, line);
+        let mut calc = crate::common::build_calc(&Cfg::default());
+        let rule: std::rc::Rc<dyn smartcalc::RuleTrait> = std::rc::Rc::new(GenRule { spec: RuleSpec { name: 0, patterns: vec![], behaviour: Behaviour::Number(1) } });
+        match crate::engine::guarded(|| calc.add_rule(lang.to_string(), vec![pattern.clone()], rule)) {
+            Ok(true) => {}
+            Ok(false) => return Verdict::fail("add_rule returned false".into(), rendered),
+            Err(p) => return Verdict::fail(format!("add_rule panicked at {}: {}", p.site, p.message), rendered),
+        }
+        w.count_eval(1);
+        let out = match crate::common::eval_on(&calc, lang, &line) {
+            Ok(o) => o,
+            Err(p) => return Verdict::fail(format!("panic at {}: {}", p.site, p.message), rendered),
+        };
+        let ui: Vec<UiToken> = out.ui.last().cloned().unwrap_or_default();
+        let mut acc = Acc::new();
+        // the rule matched: the line is the number the rule computes
+        let matched = matches!(out.slots.last(), Some(crate::common::Slot::Ok { v: crate::common::V::Num(x, _), .. }) if *x == 1.0 + 2.0 * c.n as f64 + 3.0 * c.k as f64);
+        if let Err(e) = check_valid(&ui, &line) {
+            acc.fail(e);
+        } else {
+            let chars: Vec<char> = line.chars().collect();
+            for (pos, ch) in chars.iter().enumerate() {
+                if *ch == op && !ui.iter().any(|u| u.ui_type == UiTokenType::Operator && (u.start, u.end) == (pos, pos + 1)) {
+                    acc.fail(format!("the operator {:?} at character {} is not reported as an Operator token of length 1; tokens: {}", op, pos, brief(&ui)));
+                    break;
+                }
+            }
+            // the two number literals
+            let mut pos = 0;
+            for word in line.split(' ') {
+                let n = word.chars().count();
+                if !word.is_empty() && word.chars().all(|ch| ch.is_ascii_digit()) && acc.ok() && !ui.iter().any(|u| u.ui_type == UiTokenType::Number && (u.start, u.end) == (pos, pos + n)) {
+                    acc.fail(format!("the number literal {:?} at characters ({}, {}) is not reported as a Number token with exactly that span; tokens: {}", word, pos, pos + n, brief(&ui)));
+                }
+                pos += n + 1;
+            }
+        }
+        acc.finish(rendered).nt(matched).class("operator-in-a-rule-pattern").class_if(matched, "the-rule-matched").class_if(c.lead.is_some(), "multi-byte-word-before")
+    }
+}
+
+pub fn ruleop_strategy() -> impl Strategy<Value = RuleOp> {
+    (0u8..9, 0u8..3, 0u32..1000, 0u32..1000, prop::option::weighted(0.4, 0u8..14), 0u8..4).prop_map(|(op, layout, n, k, lead, lang)| RuleOp { op, layout, n, k, lead, lang })
+}
+
 pub fn case_strategy() -> impl Strategy<Value = Case> {
     let comment = prop_oneof![2 => crate::c16::comment_strategy(), 1 => prop::sample::select(WORDS.to_vec()).prop_map(|s| format!(" {} 5 + 3", s))];
     let structured = (any_line(), prop::collection::vec((any::<u8>(), any::<u8>()), 0..4), prop::option::weighted(0.4, comment), prop::collection::vec(prop_oneof![6 => Just(0u8), 2 => 1u8..3], 0..20)).prop_map(|(g, ins, cm, extra)| Case { input: Input::Structured(g, ins, cm, extra), seps: 0 });
@@ -326,13 +413,14 @@ pub fn regressions() -> Vec<Case> {
 
 pub fn run(ctx: &Ctx) {
     let _ = Line::default();
-    ctx.rule("lines from all generators with multi-byte words (2-byte Turkish letters, 3-byte CJK and currency signs, 4-byte emoji, combining marks, and - as a separately counted class - characters whose case mapping changes their length: İ ı ß ǅ ﬁ) inserted before, between and after tokens, extra blanks, appended comments with multi-byte text; plus free token soup / Unicode texts; oracle: validity predicate on every line's ui_tokens against the CHARACTER count (0 <= start < end <= n, ordered by start, no overlap) and exactness from the generator's knowledge of where it put things: every plain number literal is covered by a Number token with exactly its span (a magnitude suffix is separate), every operator character by an Operator token of length 1, the comment by one Comment token from '#' to the end of the line; non-trivial = a token starts after a multi-byte character and the line has >= 2 tokens");
+    ctx.rule("lines from all generators with multi-byte words (2-byte Turkish letters, 3-byte CJK and currency signs, 4-byte emoji, combining marks, and - as a separately counted class - characters whose case mapping changes their length: İ ı ß ǅ ﬁ) inserted before, between and after tokens, extra blanks, appended comments with multi-byte text; plus free token soup / Unicode texts; a based literal with anything before and after it (currency code or sign, %, unit, word, operator, comment; glued where possible) is one Number token; a registered rule whose pattern contains an operator character (@ & ! ~ ^ | < > ?), on lines it matches: the character is an Operator token, the numbers Number tokens; oracle: validity predicate on every line's ui_tokens against the CHARACTER count (0 <= start < end <= n, ordered by start, no overlap) and exactness from the generator's knowledge of where it put things: every plain number literal is covered by a Number token with exactly its span (a magnitude suffix is separate), every operator character by an Operator token of length 1, the comment by one Comment token from '#' to the end of the line; non-trivial = a token starts after a multi-byte character and the line has >= 2 tokens");
     ctx.assume("a sign glued to the following digits belongs to that literal; numbers inside variable definitions/uses are re-labelled by design and not checked for exactness");
     ctx.run_table(&Spans, "regressions", regressions(), false);
     ctx.run_generated(&Spans, ctx.tier.pick(150_000, 1_500_000), case_strategy);
     // lines with unit quantities of user-defined families (unit word after or before the value)
     ctx.run_generated(&crate::custom_units::CustomUnits, ctx.tier.pick(300, 5_000), || crate::custom_units::case_strategy("C17"));
     ctx.run_generated(&BasedInContext, ctx.tier.pick(20_000, 200_000), based_ctx_strategy);
+    ctx.run_generated(&OperatorInRule, ctx.tier.pick(600, 6_000), ruleop_strategy);
     if ctx.tier == crate::engine::Tier::Thorough {
         crate::fuzzdec::campaign(ctx, "C17", "c17_spans");
     }
@@ -343,6 +431,7 @@ pub fn replay(w: &mut Worker, sub: &str, case: &serde_json::Value) -> Option<Ver
         "spans" => crate::engine::replay_case(&Spans, w, case),
         "custom-units" => crate::custom_units::replay(w, case),
         "based-literal-in-context" => crate::engine::replay_case(&BasedInContext, w, case),
+        "operator-in-a-rule-pattern" => crate::engine::replay_case(&OperatorInRule, w, case),
         _ => None,
     }
 }
